@@ -137,7 +137,7 @@ public:
       else if(data->ref > 1)
       {
         Data* newData = (Data*)new char[sizeof(Data) + sizeof(Element)];
-        Element* element = (Element*)(data + 1);
+        Element* element = (Element*)(newData + 1);
         new (element) Element(*(const Element*)(data + 1));
         clear();
         data = newData;
